@@ -308,7 +308,7 @@ CLAIMS = {
         note='Trusted: ' + TB + '. Non-smooth points and functionals whose '
              'values are not interpretable on the line are not decided.'),
     'C16': dict(
-        cat='proof', ref='DESIGN.md section 2, C16',
+        cat='other', ref='DESIGN.md section 2, C16',
         tech='symbolic interpretation of resize_array and its padding '
              'helpers on 1-d arrays with symbolic entries to exact matrices;'
              ' comparison with an oracle derived from the named boundary '
@@ -329,7 +329,7 @@ CLAIMS = {
              'adjoint identity on non-uniformly weighted spaces are not '
              'decided.'),
     'C15': dict(
-        cat='proof', ref='DESIGN.md section 2, C15',
+        cat='other', ref='DESIGN.md section 2, C15',
         tech='symbolic interpretation of the interpolator classes and public'
              ' factories on grids with symbolic nodes and node values, one '
              'evaluation per ordering case of each query coordinate with '
@@ -368,7 +368,7 @@ CLAIMS = {
              'callables (tensor-valued sampling), larger shapes than the '
              'small concrete ones, rounding.'),
     'C02': dict(
-        cat='proof', ref='DESIGN.md section 2, C02',
+        cat='other', ref='DESIGN.md section 2, C02',
         tech='symbolic interpretation of the weighting classes, their '
              'helper pipelines, the base-class defaults and '
              'DiscretizedSpace._inner/_norm/_dist on small arrays with '
@@ -405,7 +405,7 @@ CLAIMS = {
              'covered; floating-point agreement of BLAS and NumPy is not '
              'decided.'),
     'C17': dict(
-        cat='proof', ref='DESIGN.md section 2, C17',
+        cat='other', ref='DESIGN.md section 2, C17',
         tech='symbolic interpretation of the __array_ufunc__ '
              'implementations, writable_array, the array protocol methods '
              'and the legacy ufuncs wrappers with an uninterpreted ufunc '
